@@ -179,6 +179,19 @@ def run(prog, R):
             R.ob("C07.3-initializer-before-binding", "alias", ok, s2s.at, "alias: right-hand side translated before the alias name is bound")
             break
 
+    # gate definition: names are bound in textual order: angle parameters `(a, b)` before the qubit list `q, r`
+    # (when the two lists share a name, the one written first must win and the second be the redeclaration)
+    go_, ng = True, 0
+    for p in ps:
+        if "__diverged__" in p.env or arm_of(prog, p, STMT_ENUM, "stmt") != "Gate":
+            continue
+        bl_ = [show(c[1][0]) for c in p.calls if c[0].endswith("::bind_parameter_list")]
+        ia = [i for i, x in enumerate(bl_) if "angle_params" in x]
+        iq = [i for i, x in enumerate(bl_) if "qubit_params" in x]
+        if ia and iq:
+            ng += 1
+            go_ = go_ and max(ia) < min(iq)
+    R.ob("C07.3-binding-order", "gate: angle parameters are bound before qubit parameters", go_ and ng >= 1, s2s.at, f"{ng} paths of the Gate arm bind both lists")
     # ---- C07.5 diagnostics at lookup / binding time
     for fn, errk, table_call in ((CTX + "lookup_symbol", "UndefVarError", ST + "lookup"), (CTX + "lookup_gate_symbol", "UndefGateError", ST + "lookup"), (CTX + "new_binding", "RedeclarationError", ST + "new_binding")):
         b = R.anchor(prog, fn)
